@@ -50,6 +50,16 @@ def open_file_with_detected_encoding(filename, default_encoding='utf-8'):
             encoding = enc
             offset = len(bom)
             break
+    else:
+        # No BOM. The file starts with the column names, and for ASCII characters encoded using UTF-16/32 the encoding
+        # can be told by the position of the null bytes.
+        null_bytes = tuple(byte == 0 for byte in raw)
+        encoding = {
+            (False, True, True, True): "utf-32-le",
+            (True, True, True, False): "utf-32-be",
+            (False, True, False, True): "utf-16-le",
+            (True, False, True, False): "utf-16-be",
+        }.get(null_bytes, default_encoding)
 
     # Re-open the file with the detected encoding and skip the bom.
     f = open(filename, 'r', encoding=encoding)
